@@ -48,9 +48,9 @@ Section Total.
 Variable lit : string -> outcome litres.
 Variable re_search : string -> string -> outcome reres.
 Variable nstr : node -> string.
-Variable vstr : list rnode -> string.
-Variable kw_handler : bool -> keyword -> string -> rnode -> ctx -> gen rnode.
-Variable creator : list pseg -> nat -> rnode -> ctx -> gen rnode.
+Variable vstr : list rval -> string.
+Variable kw_handler : bool -> keyword -> string -> rval -> ctx -> gen rval.
+Variable creator : list pseg -> nat -> rval -> ctx -> gen rval.
 Hypothesis lit_total : forall s, exists r, lit s = Ok r /\ (forall c, r <> LCrash c).
 Hypothesis re_total : forall p s, exists r, re_search p s = Ok r.
 Hypothesis kw_ok : forall inv k ps v c, sres coords_or_list (kw_handler inv k ps v c).
@@ -92,7 +92,7 @@ Proof.
     destruct (S i <? Datatypes.length segs); [apply match_all_filtered_res; auto | apply match_all_unfiltered_res].
 Qed.
 
-Definition res_of (md : mode) : gen rnode -> Prop :=
+Definition res_of (md : mode) : gen rval -> Prop :=
   match md with
   | MSeg => sres coords_or_list
   | MReq => sres is_coords
@@ -134,7 +134,7 @@ Lemma ev_res : forall pf md segs i v c,
 Proof.
   induction pf as [|pf IH]; intros md segs i v c Hw Hfr; [lia|].
   cbn [ev]. unfold ev_body.
-  set (rqp := fun (p : ppath) (v : rnode) (c : ctx) =>
+  set (rqp := fun (p : ppath) (v : rval) (c : ctx) =>
                 match p with PFail e => gerr e | PPath s => EV pf MReq s 0 v c end).
   assert (Hnext : forall ps e c', nth_error segs i = Some ps -> sres coords_or_list (EV pf MSeg segs (S i) e c')).
   { intros ps e c' En. apply (IH MSeg); auto. rewrite (wsegs_skipn _ _ _ En) in Hw. lia. }
@@ -193,9 +193,9 @@ Section Entry.
 Variable lit : string -> outcome litres.
 Variable re_search : string -> string -> outcome reres.
 Variable nstr : node -> string.
-Variable vstr : list rnode -> string.
-Variable kw_handler : bool -> keyword -> string -> rnode -> ctx -> gen rnode.
-Variable creator : list pseg -> nat -> rnode -> ctx -> gen rnode.
+Variable vstr : list rval -> string.
+Variable kw_handler : bool -> keyword -> string -> rval -> ctx -> gen rval.
+Variable creator : list pseg -> nat -> rval -> ctx -> gen rval.
 Hypothesis lit_total : forall s, exists r, lit s = Ok r /\ (forall c, r <> LCrash c).
 Hypothesis re_total : forall p s, exists r, re_search p s = Ok r.
 Hypothesis kw_ok : forall inv k ps v c, sres coords_or_list (kw_handler inv k ps v c).
